@@ -95,6 +95,11 @@ fn build(ctx: &Ctx, vt: &VT, idx: u64, rng: &mut Rng) -> Built {
         3 => 3,
         _ => rng.range(0, if quick { 8 } else { 64 }),
     };
+    // "trickle" cases: a long run of short writes that the sink always accepts at once (no Pending, no full pipe), over
+    // many messages — state that only builds up across uninterrupted progress (counters, budgets) needs such a run
+    let mut trng = Rng::new(mix(idx) ^ 0x7716_c1e5);
+    let trickle = trng.chance(1, 16);
+    let count = if trickle { trng.range(24, if quick { 48 } else { 160 }) } else { count };
     let budget = *rng.pick(&[0usize, 4, 12, 30]);
     let (msgs, images) = gen_msgs(d, rng, count, budget);
     let largest = images.iter().map(|i| i.len()).max().unwrap_or(0).max(d.min_size());
@@ -130,6 +135,15 @@ fn build(ctx: &Ctx, vt: &VT, idx: u64, rng: &mut Rng) -> Built {
     c.wake_driven = rng.chance(1, 2);
     c.flush_pending = rng.below(3) as usize;
     c.max_polls = 8 * (stream_len + 8 * (count + 1) + 2 * plen + c.schedule.len()) + 256;
+    if trickle {
+        c.wchunks = vec![trng.range(1, 3)];
+        c.pend_w = vec![];
+        c.pend_r = vec![];
+        c.capacity = usize::MAX / 4;
+        c.wake_driven = true;
+        c.flush_pending = 0;
+        c.snd_cap = None;
+    }
     // some messages are first initialised with another value and then replaced through the send guard (own random
     // stream: the rest of the case does not depend on it)
     let mut prng = Rng::new(mix(idx) ^ 0x5eed_6a4d);
@@ -657,6 +671,10 @@ pub fn run(ctx: &Ctx, rep: &mut Report) {
             }
             if case.buf_cap.is_some() {
                 rep.count("non-default-buffer-capacity");
+            }
+            if case.capacity == usize::MAX / 4 && case.wake_driven && case.pend_w.is_empty() && case.msgs.len() >= 24 {
+                rep.count("trickle-cases");
+                rep.max("max:consecutive-ready-short-writes", t.wlog.events.iter().filter(|e| e.0 == 'w' && e.2 > 0).count() as u64);
             }
             let edited = case.pre.iter().filter(|p| p.is_some()).count();
             if edited > 0 && mode != "threaded" {
